@@ -1911,12 +1911,14 @@ stream_decoder_mt_init(lzma_next_coder *next, const lzma_allocator *allocator,
 
 		if (mythread_mutex_init(&coder->mutex)) {
 			lzma_free(coder, allocator);
+			next->coder = NULL;
 			return LZMA_MEM_ERROR;
 		}
 
 		if (mythread_cond_init(&coder->cond)) {
 			mythread_mutex_destroy(&coder->mutex);
 			lzma_free(coder, allocator);
+			next->coder = NULL;
 			return LZMA_MEM_ERROR;
 		}
 
